@@ -6,7 +6,10 @@ open CtyModel.Refine
 /-! Driver ops of the refinement slice (C05).
 
 * `rfn.run <value> (<call>*)` → `ok <value> <observers>` | `panic <index of the call>` | `unmodelled`
-  (index = number of calls when `NewValue` itself panics)
+  (index = number of calls when `NewValue` itself panics); number equality as the code
+  answers it (`textOracle` = `rawNumberEqual`)
+* `rfn.runx` the same with `partialOracle` (exact comparison, `unmodelled` where the answer could
+  depend on the decimal text) — the instance of `ExactOracle` the theorems are tied through
 * `rfn.range <value>` → observers of `value.Range()` (top-level marks removed first)
 * `rfn.includes <range-of value> <arg>` → `t|f|u|panic|unmodelled`
 * `rfn.gamma <value> <conc>` → `0|1` (the specification γ)
@@ -62,26 +65,34 @@ def observers (v : Value) : String :=
 def triStr : Tri → String
   | .t => "t" | .f => "f" | .u => "u"
 
+/-- `v.Refine().<calls>.NewValue()` under a given equality oracle, printed -/
+def runWith (O : EqOracle) (v : Value) (cs : List RefineCall) : String :=
+  match init v with
+  | .ok b =>
+    (match @runIdx O b 0 cs with
+     | (.ok b', i) =>
+       (match @newValue O b' with
+        | .ok w => s!"ok {w.toSexp} {observers w}"
+        | .panic _ => s!"panic {i}"
+        | .err _ => "err"
+        | .unmodelled => "unmodelled")
+     | (.panic _, i) => s!"panic {i}"
+     | (.err _, _) => "err"
+     | (.unmodelled, _) => "unmodelled")
+  | .panic _ => "panic init"
+  | .err _ => "err"
+  | .unmodelled => "unmodelled"
+
 def handleRefine : Handler := fun op args =>
   match op, args with
   | "rfn.run", [v, .list cs] => do
     let v ← Value.ofSexp v
     let cs ← cs.mapM decCall
-    pure (match init v with
-      | .ok b =>
-        (match runIdx b 0 cs with
-         | (.ok b', i) =>
-           (match newValue b' with
-            | .ok w => s!"ok {w.toSexp} {observers w}"
-            | .panic _ => s!"panic {i}"
-            | .err _ => "err"
-            | .unmodelled => "unmodelled")
-         | (.panic _, i) => s!"panic {i}"
-         | (.err _, _) => "err"
-         | (.unmodelled, _) => "unmodelled")
-      | .panic _ => "panic init"
-      | .err _ => "err"
-      | .unmodelled => "unmodelled")
+    pure (runWith textOracle v cs)
+  | "rfn.runx", [v, .list cs] => do
+    let v ← Value.ofSexp v
+    let cs ← cs.mapM decCall
+    pure (runWith partialOracle v cs)
   | "rfn.range", [v] => do
     let v ← Value.ofSexp v
     pure (observers v)
@@ -90,7 +101,7 @@ def handleRefine : Handler := fun op args =>
     let a ← Value.ofSexp a
     pure (match range v.unmark with
       | .ok r =>
-        (match includes r a with
+        (match @includes textOracle r a with
          | .ok x => triStr x
          | .panic _ => "panic"
          | .err _ => "err"
